@@ -153,6 +153,7 @@ type World struct {
 	Refused    int
 	ClientsPer int // client sessions per server
 
+	Dials        map[string]map[string]int // server -> caller -> dial attempts
 	Unrecognised []string
 	deadCaller   map[string]bool
 	conns        map[string]map[net.Conn]bool // by caller
